@@ -239,7 +239,7 @@ pub fn run(ctx: &mut Ctx) {
         "tolerances: class A mean 1e-20(1+max|x|), variance 1e-18(1+max|x|)^2; class B mean 1e-14(1+max|x|), variance 1e-12(1+max|x|)^2; count, sum and range exact".into(),
     ];
     ctx.run_regressions::<DatasetSummary>();
-    ctx.run::<DatasetSummary>(ctx.tier.pick(5_000, 150_000));
+    ctx.run::<DatasetSummary>(ctx.tier.pick(20_000, 300_000));
 }
 
 pub fn replay(ctx: &mut Ctx, doc: &Value) -> bool {
